@@ -26,7 +26,8 @@ distribution
                  recompute (not stored, but re-assigned by the reset call)
 
 plus the behaviour observed on a forced history (snapshot stable, loaded copy
-decoupled, 1st/2nd/3rd reset restores the construction-time distribution).
+decoupled, 1st/2nd/3rd reset restores the construction-time distribution and sets
+`start_step = max(nsteps, 1)`).
 
 Identity is observed with `is` / `numpy.shares_memory` only; nothing is parsed.
 Deterministic and idempotent: no wall clock, no hash order, fixed seeds; the
@@ -144,7 +145,9 @@ def vdigest(v):
     if isinstance(v, (float, numpy.floating)):
         return ('f', float(v).hex())
     if isinstance(v, dict):
-        return ('d', repr(sorted((str(a), repr(b)) for a, b in v.items())))
+        return ('d', repr(sorted((ktext(a), repr(b)) for a, b in v.items())))
+    if isinstance(v, (set, frozenset)):
+        return ('s', repr(sorted(repr(x) for x in v)))
     return ('o', repr(v))
 
 
@@ -160,9 +163,16 @@ def digest_of(prop):
     return {k: vdigest(v) for k, v in dist_attrs(prop).items()}
 
 
+def ktext(k):
+    """Canonical text of a dictionary key: the repr of a frozenset depends on its history."""
+    if isinstance(k, (set, frozenset)):
+        return 'fs:' + ','.join(sorted(str(x) for x in k))
+    return repr(k)
+
+
 def deep_digest(obj):
     if isinstance(obj, dict):
-        return ('d', tuple(sorted((repr(k), deep_digest(v)) for k, v in obj.items())))
+        return ('d', tuple(sorted((ktext(k), deep_digest(v)) for k, v in obj.items())))
     if isinstance(obj, (list, tuple)):
         return ('l', tuple(deep_digest(v) for v in obj))
     return vdigest(obj)
@@ -288,7 +298,7 @@ def measure(vname, fam, build):
                     fx.reset.setdefault(k, 'copy')
                 row['stale'] = sorted(k for k in d0 if vdigest(now.get(k)) != d0[k])
             row['resetRestores'].append(digest_of(prop) == d0)
-            row['resetStartStep'] = row['resetStartStep'] and prop.start_step == prop.nsteps
+            row['resetStartStep'] = row['resetStartStep'] and prop.start_step == max(prop.nsteps, 1)
             for _ in range(5):
                 observed_step(ch, prop, fx)
     names = sorted(fx.adapted | fx.inplace | fx.hot | fx.live | fx.aliased | fx.store | set(fx.reset)
